@@ -652,6 +652,9 @@ class Topology(ABC):
         # check nodes
         for n in self.nodes.values():
             n.validate_constraints()
+        # facilities are nodes with constraints of their own, the nodes view leaves them out
+        for n in (self.facilities or dict()).values():
+            n.validate_constraints()
 
         check_num_instances = set()
         # check network services, interfaces, sites
